@@ -422,6 +422,8 @@ class Interp:
                     t = next(it)
                     if v.conversion == ord("r"):
                         t = ("call", ("glob", "ext:builtins.repr"), (t,), (), 0)
+                    elif v.conversion == ord("s"):
+                        t = ("call", ("glob", "ext:builtins.str"), (t,), (), 0)
                     parts.append(t)
                 else:
                     parts.append(v.value)
